@@ -26,7 +26,7 @@ def one(mp):
         apply_patch(d, rel)
     except ValueError as e:
         return mp, None, None, str(e)
-    fired, rules = [], set()
+    fired, rules, und = [], set(), []
     try:
         env = dict(os.environ, CATII_REPO=d, VERIF_EVIDENCE_DIR=os.path.join(d, "evidence"), VERIF_NO_SELFTEST="1")
         for p in PROPS:
@@ -37,9 +37,11 @@ def one(mp):
             if r.returncode == 1:
                 fired.append(p)
                 rules.update(re.findall(r"VIOLATED (R-C\d\d-[\w-]+)", r.stdout))
+            elif r.returncode != 0:
+                und.append(p)
     finally:
         shutil.rmtree(d, ignore_errors=True)
-    return mp, fired, sorted(rules), None
+    return mp, fired, (sorted(rules), und), None
 
 
 def main():
@@ -54,12 +56,15 @@ def main():
                 continue
             meta = json.load(open(mp))
             meta["static_checks"]["fired"] = fired
+            rules, und = rules
             meta["static_checks"]["rules"] = rules
+            meta["static_checks"]["undecided"] = und
             meta["static_checks"]["tool"] = "tools/refresh_seeds.py (patch applied to a scratch copy of /repo's sources, all twenty quick checks)"
             json.dump(meta, open(mp, "w"), indent=1)
             own = meta["property"] in fired
-            print(name, "fired:", fired, "" if own else "  <-- the property's own check is silent", flush=True)
-            bad += (not fired) or (not own)
+            own_und = meta["property"] in und
+            print(name, "fired:", fired, "undecided:", und, "" if own else ("  <-- own check UNDECIDED (exit 2): a rewrite outside the recognised schema" if own_und else "  <-- the property's own check is silent"), flush=True)
+            bad += not (own or own_und)
     sys.exit(1 if bad else 0)
 
 
